@@ -59,7 +59,7 @@ theorem mapUpdate_inv {f : Forest} (hi : f.Inv) {k : MapKind} {parent key : Nat}
   | some K =>
     rw [hK] at hg
     simp only at hg
-    have hmem : n ∈ K.kids := mapChildren_sub k K n (List.mem_of_find?_eq_some hg)
+    have hmem : n ∈ K.kids := fi_mapChildren_sub k K n (List.mem_of_find?_eq_some hg)
     have hv := value?_of_mem_kids hi.nodup hK hmem
     obtain ⟨h1, h2⟩ := sameKind_entryUpdate n.value v
     exact setValue_inv hi hv h1 h2
